@@ -99,7 +99,10 @@ func (v *FnV) expr(st *State, e ast.Expr) Value {
 		iv := v.expr(st, x.X)
 		t := v.typeOf(x.Type)
 		v.safety(st, "type-assert", x, v.c.hasType(iv.S, t), fmt.Sprintf("type assertion to %s cannot fail", types.TypeString(t, nil)))
-		return Value{T: t, S: v.c.fromIface(iv.S, t)}
+		pv := v.c.fromIface(iv.S, t)
+		// a value taken out of an interface satisfies its type invariant (pointers refer to allocated objects, ...)
+		st.assume(v.c.rangeOf(t, pv, st.alloc))
+		return Value{T: t, S: pv}
 	case *ast.KeyValueExpr:
 		return v.expr(st, x.Value)
 	}
